@@ -22,6 +22,7 @@ section
 variable {P : Cfg → Prop} (H : Closed P)
 include H
 
+set_option linter.unusedSectionVars false in
 theorem Closed.ofRes {α : Type} {fb : Cfg} {r : Res Cfg} {v : α} (hfb : P fb) (hr : ∀ c', r = .ok c' → P c') :
     P (Step.ofRes fb r v).cfg := by
   cases r with
@@ -146,8 +147,8 @@ theorem Closed.append {c : Cfg} (d : Cfg) (h : P c) : P (CfgEdit.append c d).cfg
                 · exact h2
             split
             · rename_i c3 hr3
-              have e3 := congrArg Step.cfg hr3
-              have hr' : P c3 := e3 ▸ hr
+              have e3 : _ = c3 := congrArg Step.cfg hr3
+              have hr' : P c3 := by rw [← e3]; exact hr
               split
               · exact H.congr c3 _ rfl rfl hr'
               · exact hr'
@@ -201,7 +202,7 @@ theorem Closed.blockify (hnew : P CfgEdit.new) {ds : List Cfg} {c : Cfg} (h : bl
   have h2 : setExit { blocks := [{ index := 0 }], entry := some 0, nextIndex := 1 } 0 = ⟨blockifyInit, .ok ()⟩ := rfl
   rw [h2] at h
   dsimp only at h
-  have p2 : P blockifyInit := H.congr _ _ rfl rfl p0
+  have p2 : P blockifyInit := H.congr { blocks := [{ index := 0 }], nextIndex := 1 } _ rfl rfl p0
   have p3 := H.blockifyAppends ds p2
   split at h
   · rename_i c0 happ
@@ -217,8 +218,12 @@ theorem Closed.blockify (hnew : P CfgEdit.new) {ds : List Cfg} {c : Cfg} (h : bl
 theorem Closed.step (hnew : P CfgEdit.new) (s : Graphs) (hs : ∀ g, P (s g)) (o : EditOp) : P (o.step s).cfg := by
   cases o with
   | newBlock g => exact H.newBlock (hs g)
-  | uedge g h t => exact H.ofRes (hs g) (fun _ hr => H.insE hr (hs g))
-  | cedge g h t e => exact H.ofRes (hs g) (fun _ hr => H.insE hr (hs g))
+  | uedge g h t =>
+    show P (unconditionalEdge (s g) h t).cfg
+    exact H.ofRes (hs g) (fun _ hr => H.insE hr (hs g))
+  | cedge g h t e =>
+    show P (conditionalEdge (s g) h t e).cfg
+    exact H.ofRes (hs g) (fun _ hr => H.insE hr (hs g))
   | entry g i =>
     show P (setEntry (s g) i).cfg
     unfold setEntry; split
